@@ -4,7 +4,7 @@ C04 / C10 — model of the client negotiation state machine of `QXmppOutgoingCli
 base/QXmppStreamManagement.cpp `StreamAckManager`, and the parts of `QXmppClient` /
 `QXmppRosterManager` that react to `connected`).
 
-The model follows the code that exists (tree after the fixes e0bbad9, fa0779c, 7771c2d, 7a677f2, e363fe9, c590ae4, 7c60ff5, a739aa9, 0b10c27, fa23804):
+The model follows the code that exists (tree after the fixes e0bbad9, fa0779c, 7771c2d, 7a677f2, e363fe9, c590ae4, 7c60ff5, a739aa9, e3d3c0f, 8d68c05):
 * `handleStream` starts XEP-0078 authentication on a header without `version` — unless TLS is required and the link is
   not encrypted: then it warns and disconnects;
 * the idle listener rejects EVERY element but stream features and stream errors - whatever its namespace - received on an
@@ -393,7 +393,7 @@ def El.isStanza : El → Bool
   | .presence => true
   | _ => false
 
-/-- what `handleElement` still processes on an unencrypted link when TLS is required (0b10c27): stream features and stream
+/-- what `handleElement` still processes on an unencrypted link when TLS is required (e3d3c0f): stream features and stream
 errors; the namespace of anything else does not matter -/
 def El.isStreamLevel : El → Bool
   | .features _ => true
@@ -602,7 +602,7 @@ def step (s : St) : Ev → R
   | .recv e => recv s e
   | .sendIq => sendIq s
   | .recvWhitespace =>
-    -- `handlePacketReceived` stops the ping timeout and returns (fa23804): no listener sees the null element
+    -- `handlePacketReceived` stops the ping timeout and returns (8d68c05): no listener sees the null element
     (s, [])
   | .recvPartial =>
     if s.conn ≠ .connected ∨ s.wedged then (s, []) else ({ s with wedged := true }, [])
